@@ -144,6 +144,10 @@ def composite_cases(term, ns, mus):
                     yield f"pairs:{names[i]}={lab}", (lambda fs=fs: [(n, g()) for n, g in zip(names, fs)]), ref
                     yield f"iter:{names[i]}={lab}", (lambda fs=fs: iter([(n, g()) for n, g in zip(names, fs)])), ref
                     yield f"foreign:{names[i]}={lab}", (lambda fs=fs: Foreign(**{n: g() for n, g in zip(names, fs)})), ref
+                    isdict_ = term.isdict() if term.kind == "cls" else term._cls is dict
+                    if not isdict_ and call(lambda fs=fs: ns[term.name](**{n: g() for n, g in zip(names, fs)})).ok:
+                        # an instance of the annotated class itself whose members are still raw
+                        yield f"same-class-raw:{names[i]}={lab}", (lambda fs=fs: ns[term.name](**{n: g() for n, g in zip(names, fs)})), ref
                     yield f"extra-key:{names[i]}={lab}", (lambda fs=fs: {**{n: g() for n, g in zip(names, fs)}, "zz_unknown": 1}), ref
                     m = asmap()
                     if inputs.jsonable(m):
